@@ -318,9 +318,29 @@ def check_quat(o):
     r2 = r.from_vector(canon)
     if not L.close(r2.as_vector(), canon, 1e-9) or not L.close(r2.h_matrix, M, 1e-11):
         bad.append(("quaternion does not round-trip", {}, None))
-    # quaternion of any positive scaling denotes the same rotation
-    if not L.close(Rotation.init_3d_from_quaternion(3.0 * q).h_matrix, M, 1e-11):
+    # quaternion of any positive scaling denotes the same rotation - and stays the caller's: not rescaled behind their back
+    q3 = 3.0 * q
+    q3_keep = q3.copy()
+    if not L.close(Rotation.init_3d_from_quaternion(q3).h_matrix, M, 1e-11):
         bad.append(("scaled quaternion gives a different rotation", {}, None))
+    if not np.array_equal(q3, q3_keep):
+        bad.append(("init_3d_from_quaternion rewrote the caller's (non-unit) quaternion array", {"before": q3_keep, "after": q3}, None))
+    # a rotation's own parameter vector (a read-only array) is a legal quaternion argument
+    try:
+        own = r.as_vector()
+        r3 = Rotation.init_3d_from_quaternion(own)
+        if not L.close(r3.h_matrix, M, 1e-11):
+            bad.append(("init_3d_from_quaternion(rotation.as_vector()) is another rotation", {}, None))
+    except Exception as e:
+        bad.append(("init_3d_from_quaternion refuses a rotation's own as_vector() (%s)" % type(e).__name__, {"msg": str(e)[:100]}, None))
+    # a vector of the wrong length is refused - and left alone
+    w3 = np.array([3.0, 0.0, 4.0])
+    try:
+        Rotation.init_3d_from_quaternion(w3)
+        bad.append(("a three-parameter vector was accepted as a quaternion", {}, None))
+    except Exception:
+        if not np.array_equal(w3, [3.0, 0.0, 4.0]):
+            bad.append(("a refused init_3d_from_quaternion call rewrote its argument", {"after": w3}, None))
     # axis and angle of a rotation about a GENERAL axis rebuild it, sign included (identity and half-turns are excluded)
     tr = float(np.trace(M[:3, :3]))
     if abs(tr - 3.0) > 1e-6 and abs(tr + 1.0) > 1e-6:
